@@ -37,12 +37,18 @@ type opT struct {
 	// exit handlers registered with WhenExit on the admitted entry, in order: 1 returns nil, 2 returns an
 	// error, 3 panics.  Whatever they do, Exit frees the capacity (the model ignores them)
 	Hdl []int `json:"exit_handlers,omitempty"`
+	// on a custom chain (seqCase.Chain): the user statistic slot ordered after stat.DefaultSlot panics in
+	// OnEntryPassed / OnCompleted for this entry
+	PanicPass bool `json:"stat_panic_on_pass,omitempty"`
+	PanicDone bool `json:"stat_panic_on_completed,omitempty"`
 }
 
 type seqCase struct {
 	ID    int        `json:"id"`
 	Rules [][]uint32 `json:"rules"` // per resource: thresholds
 	Ops   []opT      `json:"ops"`
+	Chain bool       `json:"custom_chain,omitempty"`   // chain.go: extra statistic slots before and after stat.DefaultSlot
+	Late  bool       `json:"late_resources,omitempty"` // the resources are first seen after DefaultMaxResourceAmount other names
 }
 
 type obsT struct {
@@ -63,6 +69,7 @@ func genSeq(r *rng.R, id int) seqCase {
 		}
 		c.Rules = append(c.Rules, th)
 	}
+	c.Chain = r.Chance(1, 5)
 	nops := 8 + r.Intn(40)
 	var enters []int
 	for i := 0; i < nops; i++ {
@@ -108,6 +115,10 @@ func genSeq(r *rng.R, id int) seqCase {
 			for n := 1 + r.Intn(2); n > 0; n-- {
 				o.Hdl = append(o.Hdl, int(r.PickI(1, 2, 2, hdlPanic)))
 			}
+		}
+		if c.Chain && r.Chance(1, 3) {
+			o.PanicPass = r.Chance(1, 3)
+			o.PanicDone = r.Chance(2, 3)
 		}
 		c.Ops = append(c.Ops, o)
 		enters = append(enters, i)
@@ -169,6 +180,12 @@ func runSeq(c seqCase) (obs []obsT, gauges []int64) {
 			}
 			if o.Args {
 				opts = append(opts, sentinel.WithArgs(i, "x"))
+			}
+			if c.Chain {
+				opts = append(opts, sentinel.WithSlotChain(customChain))
+				if o.PanicPass || o.PanicDone {
+					opts = append(opts, sentinel.WithArgs(panicMark{o.PanicPass, o.PanicDone}))
+				}
 			}
 			e, b := sentinel.Entry(resName(c.ID, o.Res), opts...)
 			if b != nil {
@@ -479,6 +496,21 @@ func coqConc(c concCase, evs []concEv, passed []bool, fg int64) string {
 
 const concBase = 100000
 
+// lateBase: sequential cases run after the process holds DefaultMaxResourceAmount resource nodes
+const lateBase = 300000
+
+var nodesFilled bool
+
+func fillResourceNodes() {
+	if nodesFilled {
+		return
+	}
+	nodesFilled = true
+	for i := 0; i <= int(base.DefaultMaxResourceAmount); i++ {
+		stat.GetOrCreateResourceNode("c04-fill-"+strconv.Itoa(i), base.ResTypeCommon)
+	}
+}
+
 // hdlPanic: the handler kind drawn for "panics".  3 = really panic.
 const hdlPanic = 3
 
@@ -490,7 +522,7 @@ func main() {
 	gclk = clk
 	root := rng.New(a.Seed)
 	rep := emit.NewReport("C04", a.Seed, a.Tier)
-	rep.Rule = "sequential: 1-3 resources x 1-3 isolation rules, 8-47 Entry/Exit ops (batches 0,1,2,N,N+1,2^32-1,2^32-2; exits out of order, repeated, of blocked ops; 3 in 10 requests enter the same resource name under another ResourceType / as inbound traffic / with arguments; 1 in 4 admitted entries carry 1-2 WhenExit handlers returning nil / an error / panicking); concurrent: k=2-4 goroutines parked at the chain yield between rule check and statistics, random interleavings with releases. Non-trivial = the history contains at least one admission and one rejection (sequential) / at least two requests simultaneously inside the admission path (concurrent); distinct by full input. parallel (search only): 0-4 entries held open, 4-16 real goroutines entering/exiting the same resource in 10-30 bursts; at quiescence gauge = held entries, then sequential decisions with exactly that many in flight (batch N-held admitted, N-held single admissions, next rejected with snapshot N)."
+	rep.Rule = "sequential: 1-3 resources x 1-3 isolation rules, 8-47 Entry/Exit ops (batches 0,1,2,N,N+1,2^32-1,2^32-2; exits out of order, repeated, of blocked ops; 3 in 10 requests enter the same resource name under another ResourceType / as inbound traffic / with arguments; 1 in 4 admitted entries carry 1-2 WhenExit handlers returning nil / an error / panicking; 1 in 5 cases run on a custom chain with user statistic slots before and after stat.DefaultSlot, the later one panicking in OnEntryPassed / OnCompleted for a third of the entries; the last 24 cases run on resources first seen after 10001 other resource nodes exist); concurrent: k=2-4 goroutines parked at the chain yield between rule check and statistics, random interleavings with releases. Non-trivial = the history contains at least one admission and one rejection (sequential) / at least two requests simultaneously inside the admission path (concurrent); distinct by full input. parallel (search only): 0-4 entries held open, 4-16 real goroutines entering/exiting the same resource in 10-30 bursts; at quiescence gauge = held entries, then sequential decisions with exactly that many in flight (batch N-held admitted, N-held single admissions, next rejected with snapshot N)."
 	nSeqCorr := a.Pick(a.N, 240, 4000)
 	nConcCorr := a.Pick(a.N, 80, 1500)
 	nSeqMon := a.Pick(a.Mon, 4000, 60000)
@@ -511,6 +543,12 @@ func main() {
 	dist := emit.NewDistinct()
 	runOneSeq := func(id int, corr bool) {
 		c := genSeq(root.Fork(uint64(id)), id)
+		if id >= lateBase && id < lateBase+100000 {
+			// the case's resources are first seen after DefaultMaxResourceAmount other resource names
+			// exist in the process: the gauge of a late resource counts its in-flight entries all the same
+			fillResourceNodes()
+			c.Late = true
+		}
 		obs, gauges := runSeq(c)
 		rep.Evaluations++
 		nt := monitorSeq(c, obs, gauges, rep)
@@ -586,7 +624,9 @@ func main() {
 		}
 	}
 	if a.Only >= 0 {
-		if a.Only >= parBase {
+		if a.Only >= lateBase {
+			runOneSeq(a.Only, false)
+		} else if a.Only >= parBase {
 			parLeg(root, rep, 0, a.Only, 10*time.Second)
 		} else if a.Only >= concBase {
 			runOneConc(a.Only, false)
@@ -606,6 +646,10 @@ func main() {
 	}
 	// real-thread search leg (par.go): bounded by counts, at most 4 s (quick) / 60 s (thorough)
 	parLeg(root, rep, a.Pick(0, 12, 200), -1, time.Duration(a.Pick(0, 4, 60))*time.Second)
+	// last: sequential cases on resources first seen after DefaultMaxResourceAmount other names
+	for j := 0; j < a.Pick(0, 24, 400); j++ {
+		runOneSeq(lateBase+j, j < 12 && !a.Search)
+	}
 	rep.DistinctNontrivial = dist.N()
 	rep.Consts["isolation.RuleCheckSlotOrder"] = isolation.RuleCheckSlotOrder
 	if sh != nil {
